@@ -364,6 +364,9 @@ static void vr_set_io_ratio(rate_t * p, double io_ratio, size_t slew_len)
     }
   }
   else {
+    /* An immediate change cancels any slew that is still in progress: */
+    p->slew_len = 0, p->new_io_ratio = 0;
+    p->current.step_step.all = p->fadeout.step_step.all = 0;
     if (p->default_io_ratio!=0) { /* Then this is the first call to this fn. */
       int octave = (int)floor(log(io_ratio) / M_LN2);
       p->current.stage_num = octave < 0? -1 : min(octave, p->num_stages0-1);
